@@ -33,6 +33,7 @@ class Net:
         self.max_read = None         # callable(conn, available) -> how many bytes this recv() returns
         self.sockets = []
         self.selectors = []
+        self.partial_writes = False  # when True every send() of >1 byte is an environment choice point
 
     def fd(self):
         self.next_fd += 1
@@ -131,7 +132,11 @@ class FakeSocket:
         if c.state == "closed" or c.eof and c.reset_on_write:
             raise BrokenPipeError(errno.EPIPE, "Broken pipe")
         n = len(data)
-        if n and self.net.max_write is not None:
+        if n > 1 and self.net.partial_writes:
+            # environment answer: how many bytes the kernel accepts (default: all)
+            opt = rt.env_choice("env.write", str(n), ["all", "1-byte", "all-but-1"])
+            n = (n, 1, n - 1)[opt]
+        elif n and self.net.max_write is not None:
             n = max(1, min(n, self.net.max_write(c, n)))
         c.outbox += data[:n]
         c.writes.append(n)
